@@ -20,21 +20,21 @@ CLAIMED = {
  "C07": ("runtime monitoring: shadow-list conservation check of DiskFile writer->reader round trips (default and permuted fill orders) + reference filesystem writer for foreign images",
          "Stored file sequences at granule/sector boundary lengths are read back by the real reader and compared; foreign fsck-clean images with arbitrary chain orders are listed by the tool.", "6 C07"),
  "C08": ("runtime monitoring: postcondition hook on DiskFile.add_file running an independent Disk BASIC fsck after every addition",
-         "Every image state reached by the workload is checked against all structural clauses of the property by a reference fsck.", "6 C08"),
+         "Every image state reached by the workload - after every successful and after every refused addition - is checked against all structural clauses of the property by a reference fsck.", "6 C08"),
  "C14": ("runtime monitoring: postcondition hook on CassetteFile.add_file parsing every appended region with a strict checksum-verifying reference parser",
          "Every region appended by the real writer must parse as exactly one well-formed file equal to the argument.", "6 C06/C14"),
  "C15": ("runtime monitoring: history invariant at DiskFile.add_file (free-granule / slot accounting vs shadow free sets) over fill-to-exhaustion histories + audit-hook check of failing host saves",
          "Fit/no-fit, granules used and slots consumed are judged on every addition of histories that drive images to exhaustion; all 72 single-free-slot directory states are enumerated; failing CLI saves must leave the host file untouched.", "6 C15"),
  "C09": ("runtime monitoring: shadow-list history checker over save / re-open / append sequences on real host files (API and both CLIs), reference parsers as independent observers, sniffed-kind recorder",
-         "After every operation of generated histories the host bytes are parsed by the reference parsers and by the tool and compared with a shadow list; M7/M8 assert 'earlier bytes/files untouched' at every add_file.", "6 C09"),
+         "After every operation of generated histories the host bytes are parsed by the reference parsers and by the tool and compared with a shadow list; M7/M8 assert 'earlier bytes/files untouched' at every add_file; includes re-opening on list/bytes/bytearray copies, additions that cannot be written, a cassette that carries a picture of a disk and a disk that holds a tape image.", "6 C09"),
  "C10": ("runtime monitoring: audit-hook file-effect log + content hashes over the exhaustive CLI configuration matrix, judged by a decision table; strace as second observer",
-         "All 132 cells of the matrix (11 pre-existing target kinds) run in both tiers plus random invocation sequences; the target may change only when the decision table allows it.", "6 C10"),
+         "All 144 cells of the matrix (12 pre-existing target kinds) run in both tiers plus random invocation sequences; the target may change only when the decision table allows it.", "6 C10"),
  "C11": ("runtime monitoring: CLI outputs parsed by independent readers and compared with an in-process assembly of the same text",
          "BIN/CAS/DSK outputs of assembler.py for generated programs are compared with the image, origin and name obtained from Program.process; file_util --list is a third witness.", "6 C11"),
  "C16": ("runtime monitoring: conservation check of file sets across file_util conversions and conversion chains, reference parsers as oracle",
          "Source images from reference writers are converted through the real CLI; the produced image must list exactly the selected files unchanged; chains must return the original set.", "6 C16"),
  "C04": ("runtime monitoring: reference expression evaluator (generator AST) vs value decoded from the emitted bytes, across operand positions, operators and symbol kinds",
-         "Every operand position x operator x term kind (literal, EQU before/after in every spelling, label before/after) is assembled and the decoded value compared with Python-integer arithmetic on the generator's AST.", "6 C04"),
+         "Every operand position x operator x term kind (literal, EQU before/after in every spelling, label before/after) is assembled and the decoded value compared with Python-integer arithmetic on the generator's AST; a rejected single-symbol statement is re-assembled with the constant written in place, a rejected label expression is judged from the layout.", "6 C04"),
  "C05": ("runtime monitoring: emitted bytes of data directives observed at the translate hook vs the literal meaning computed by the generator",
          "FCB/FDB lists, FCC strings with every delimiter and hostile content, RMB sizes and non-emitting directives are assembled and compared byte for byte.", "6 C05"),
  "C17": ("runtime monitoring: output fingerprints compared across warm / repeated / fresh-process / varied-hash-seed executions + deep module-state fingerprint (M10) around every assembly",
@@ -45,7 +45,7 @@ CLAIMED = {
          "Programs cut at statement boundaries into 1-3 included files nested to depth 3 must assemble to the image, addresses and symbols of the spliced text.", "6 C19"),
 }
 LEVEL_NOTE = ("Trusted base: the harness's reference models under vlib/ref (self-tested), CPython's sys.addaudithook / sys.monitoring, and the "
-              "generators' reach (form catalogue, boundary sets, seeds). Holds only for the executions actually produced; see DESIGN.md sections 1 and 11.")
+              "generators' reach (form catalogue, boundary sets, seeds; the M11 reach monitor reports in every evidence file which repository lines and anchored functions the run executed). Holds only for the executions actually produced; see DESIGN.md sections 1 and 11.")
 checks = []
 for p in props:
     if p["id"] in CLAIMED:
